@@ -83,8 +83,11 @@ fn alphabet() -> Vec<Dev> {
     for (pn, first) in [("first", true), ("last", false)] {
         for named in [false, true] {
             for (iname, inner) in [("String", Inner::Str), ("&'static str", Inner::SStr), ("i32", Inner::I32), ("f64", Inner::F64), ("nested enum", Inner::Nested)] {
-                d.push(dev(format!("transparent variant {} ({}, {})", pn, if named { "named" } else { "tuple" }, iname), &["transparent"], move |s| {
+                for tos in [None, Some("Ttx"), Some("{0}")] {
+                  if tos.is_some() && (named || inner != Inner::I32 && inner != Inner::Str) { continue; }
+                  d.push(dev(format!("transparent variant {} ({}, {}{})", pn, if named { "named" } else { "tuple" }, iname, match tos { Some(t) => format!(", to_string={:?}", t), None => String::new() }), &["transparent"], move |s| {
                     let mut v = VariantSpec::unit("Tt");
+                    v.to_string = tos.map(|t| t.to_string());
                     v.transparent = true;
                     v.kind = if named { Kind::Named(vec![NamedField { name: "f".into(), ty: inner_ty(inner), default_with: false }]) } else { Kind::Tuple(vec![inner_ty(inner)]) };
                     if first {
@@ -93,7 +96,8 @@ fn alphabet() -> Vec<Dev> {
                         s.variants.push(v);
                     }
                     true
-                }));
+                  }));
+                }
             }
         }
     }
